@@ -107,6 +107,60 @@ class Repo:
                 if ck is not None:
                     _PARSE_CACHE[ck] = mi
 
+        self._cross_module_helpers()
+
+    def _cross_module_helpers(self) -> None:
+        """a helper that was extracted into ANOTHER module of the package (not in the inventory of the pinned tree there) is substituted at its
+        call sites in the modules that import it, exactly like a helper extracted inside one module"""
+        from .inline import new_module_functions, inline_new_helpers as _inl
+        new_by_mod = {rel: new_module_functions(mi.tree, rel) for rel, mi in self.modules.items()}
+        new_by_mod = {k: v for k, v in new_by_mod.items() if v}
+        if not new_by_mod:
+            return
+        for rel, mi in list(self.modules.items()):
+            foreign = {}
+            for local, org in mi.imports.items():
+                target, fname = self._resolve_import(rel, org)
+                if target in new_by_mod and fname in new_by_mod[target] and target != rel:
+                    foreign[local] = new_by_mod[target][fname]
+            if not foreign:
+                continue
+            try:
+                tree = normalise(ast.parse(mi.src, filename=mi.path))
+                tree, inlined = _inl(tree, rel, foreign)
+                if inlined:
+                    tree = normalise(tree)
+            except (SyntaxError, RecursionError):
+                continue
+            if not inlined:
+                continue
+            mi2 = ModuleInfo(rel=rel, path=mi.path, src=mi.src, tree=tree)
+            mi2.inlined = inlined
+            _index_module(mi2)
+            self.modules[rel] = mi2   # depends on another module's content: never put into the per-file parse cache
+
+    def _resolve_import(self, rel: str, org: str):
+        """('synkit/CRN/Props/utils.py', '_reaction_side') for '.utils._reaction_side' seen from synkit/CRN/Props/deficiency.py"""
+        parts = org.split(".")
+        level = 0
+        while level < len(parts) and parts[level] == "":
+            level += 1
+        names = [p_ for p_ in parts[level:] if p_]
+        if not names:
+            return None, None
+        fname = names[-1]
+        modparts = names[:-1]
+        if level:
+            base = os.path.dirname(rel).split(os.sep)
+            base = base[: len(base) - (level - 1)] if level > 1 else base
+            path = os.path.join(*(base + modparts)) if (base + modparts) else ""
+        else:
+            path = os.path.join(*modparts) if modparts else ""
+        for cand in (path + ".py", os.path.join(path, "__init__.py")):
+            if cand in self.modules:
+                return cand, fname
+        return None, None
+
     # -- accessors (fail closed) ------------------------------------------
     def module(self, rel: str) -> ModuleInfo:
         mi = self.modules.get(rel)
